@@ -96,6 +96,21 @@ func rulePadShape(p *Program, r *Result, parts string) {
 		entry := F.Blocks[0]
 		aOK := false
 		if iff, ok := entry.Instrs[len(entry.Instrs)-1].(*ssa.If); ok {
+			// the mask test written out (or the flag accessor folded into a view): Flags & Unencrypted != 0
+			if ne, ok := iff.Cond.(*ssa.BinOp); ok && ne.Op == token.NEQ {
+				if z, okz := constInt(ne.Y); okz && z == 0 {
+					if and, ok := ne.X.(*ssa.BinOp); ok && and.Op == token.AND {
+						if fc, okc := constInt(and.Y); okc && fc == unenc {
+							if u, ok := and.X.(*ssa.UnOp); ok && u.Op == token.MUL && headerFieldAddr(u.X, pkt, "Flags") {
+								tb := entry.Succs[0]
+								if ret, ok := tb.Instrs[len(tb.Instrs)-1].(*ssa.Return); ok && len(tb.Instrs) == 1 && isNilConst(ret.Results[0]) {
+									aOK = true
+								}
+							}
+						}
+					}
+				}
+			}
 			if call, ok := iff.Cond.(*ssa.Call); ok {
 				if f := call.Common().StaticCallee(); f != nil && f.Name() == "Has" && len(call.Common().Args) == 2 {
 					flagC, okc := constInt(call.Common().Args[1])
@@ -110,7 +125,7 @@ func rulePadShape(p *Program, r *Result, parts string) {
 			// nothing but loads before the test
 			for _, in := range entry.Instrs[:len(entry.Instrs)-1] {
 				switch in.(type) {
-				case *ssa.FieldAddr, *ssa.UnOp, *ssa.Call, *ssa.DebugRef:
+				case *ssa.FieldAddr, *ssa.UnOp, *ssa.Call, *ssa.DebugRef, *ssa.BinOp:
 				default:
 					aOK = false
 				}
